@@ -41,7 +41,7 @@ type frame struct {
 	pan    func(st *State, v SV)
 	loops  map[*ssa.BasicBlock]*loopInfo
 	inline bool
-	names  map[string]ssa.Value // debug names (non-phi)
+	names  map[string][]dbgRef // debug names (non-phi), in instruction order
 }
 
 type loopInfo struct {
@@ -168,27 +168,57 @@ func (e *Exec) analyzeLoops(fn *ssa.Function, spec *FuncSpec) map[*ssa.BasicBloc
 	return loops
 }
 
-func debugNames(fn *ssa.Function) map[string]ssa.Value {
-	m := map[string]ssa.Value{}
+type dbgRef struct {
+	v     ssa.Value
+	block *ssa.BasicBlock
+}
+
+func debugNames(fn *ssa.Function) map[string][]dbgRef {
+	m := map[string][]dbgRef{}
 	for _, b := range fn.Blocks {
 		for _, in := range b.Instrs {
 			if d, ok := in.(*ssa.DebugRef); ok {
-				if id, ok := d.Expr.(interface{ String() string }); ok {
-					_ = id
-				}
 				if obj := d.Object(); obj != nil {
 					name := obj.Name()
 					if d.IsAddr {
 						name = "&" + name
 					}
-					if _, ok := m[name]; !ok {
-						m[name] = d.X
-					}
+					m[name] = append(m[name], dbgRef{d.X, b})
 				}
 			}
 		}
 	}
 	return m
+}
+
+// pickDebug chooses the SSA value a source name denotes: inside loop li the value used in the
+// loop body, otherwise the last bound one.
+func pickDebug(refs []dbgRef, st *State, li *loopInfo) (ssa.Value, bool) {
+	if li != nil {
+		for _, r := range refs {
+			if li.body[r.block] {
+				if _, isC := r.v.(*ssa.Const); isC {
+					continue
+				}
+				if _, ok := st.env[r.v]; ok {
+					return r.v, true
+				}
+				if _, ok := r.v.(*ssa.Alloc); ok {
+					return r.v, true
+				}
+			}
+		}
+	}
+	for i := len(refs) - 1; i >= 0; i-- {
+		switch refs[i].v.(type) {
+		case *ssa.Const, *ssa.Global, *ssa.Function:
+			continue
+		}
+		if _, ok := st.env[refs[i].v]; ok {
+			return refs[i].v, true
+		}
+	}
+	return nil, false
 }
 
 // runFunc executes fn symbolically from st; ret is called once per path that returns.
@@ -373,7 +403,7 @@ func (e *Exec) loopHeader(fr *frame, li *loopInfo, b, pred *ssa.BasicBlock, st *
 	e.evalPhis(b, pred, st)
 	vars := e.loopVars(fr, li, st)
 	for _, inv := range li.spec.Invariants {
-		g, err := e.evalSpecBool(inv.Expr, &specEnv{st: st, old: e.entry, vars: vars, oldVars: e.entryVars, fr: fr})
+		g, err := e.evalSpecBool(inv.Expr, &specEnv{into: st, st: st, old: e.entry, vars: vars, oldVars: e.entryVars, fr: fr})
 		if err != nil {
 			e.errorf("%s: invariant %s: %v", name, inv.Label, err)
 			continue
@@ -388,13 +418,16 @@ func (e *Exec) loopHeader(fr *frame, li *loopInfo, b, pred *ssa.BasicBlock, st *
 		// termination measure
 		if li.spec.Decreases != nil {
 			if lc := st.inLoop[b]; lc != nil && lc.measure != nil {
-				m, err := e.evalSpec(li.spec.Decreases, &specEnv{st: st, old: e.entry, vars: vars, oldVars: e.entryVars, fr: fr})
+				m, err := e.evalSpec(li.spec.Decreases, &specEnv{into: st, st: st, old: e.entry, vars: vars, oldVars: e.entryVars, fr: fr})
 				if err == nil {
 					e.oblige(st, name+"/decreases", e.propsFor(fr, "safety"), And(Lt(m.L[0], *lc.measure), Ge(*lc.measure, IntLit(0))), "termination measure decreases and is bounded below")
 				} else {
 					e.errorf("%s: decreases: %v", name, err)
 				}
 			}
+		}
+		if !fr.inline && fr.spec != nil {
+			e.effectsDeclared(st, fnName(fr.fn), fr.spec)
 		}
 		return // path ends at the back edge
 	}
@@ -411,6 +444,14 @@ func (e *Exec) loopHeader(fr *frame, li *loopInfo, b, pred *ssa.BasicBlock, st *
 		hst.env[phi] = nv
 	}
 	ws := e.writeSet(fr, li)
+	for a := range ws.locals {
+		if cur, ok := hst.locals[a]; ok {
+			nv := e.freshSV("local."+a.Comment, a.Type().(*types.Pointer).Elem())
+			e.wfAssume(hst, nv)
+			_ = cur
+			hst.locals[a] = nv.L
+		}
+	}
 	for name := range ws.classes {
 		// havoc all heap symbols of this class prefix
 		for hs, srt := range e.ctx.heapSort {
@@ -427,14 +468,14 @@ func (e *Exec) loopHeader(fr *frame, li *loopInfo, b, pred *ssa.BasicBlock, st *
 	}
 	vars = e.loopVars(fr, li, hst)
 	for _, inv := range li.spec.Invariants {
-		g, err := e.evalSpecBool(inv.Expr, &specEnv{st: hst, old: e.entry, vars: vars, oldVars: e.entryVars, fr: fr})
+		g, err := e.evalSpecBool(inv.Expr, &specEnv{into: hst, st: hst, old: e.entry, vars: vars, oldVars: e.entryVars, fr: fr})
 		if err == nil {
 			hst.pc = append(hst.pc, g)
 		}
 	}
 	lc := &loopCtx{}
 	if li.spec.Decreases != nil {
-		m, err := e.evalSpec(li.spec.Decreases, &specEnv{st: hst, old: e.entry, vars: vars, oldVars: e.entryVars, fr: fr})
+		m, err := e.evalSpec(li.spec.Decreases, &specEnv{into: hst, st: hst, old: e.entry, vars: vars, oldVars: e.entryVars, fr: fr})
 		if err == nil {
 			mm := e.ctx.def("measure", m.L[0])
 			lc.measure = &mm
@@ -445,6 +486,7 @@ func (e *Exec) loopHeader(fr *frame, li *loopInfo, b, pred *ssa.BasicBlock, st *
 }
 
 type writeSet struct {
+	locals  map[*ssa.Alloc]bool
 	classes map[string]bool
 	alloc   bool
 	all     bool
@@ -453,7 +495,7 @@ type writeSet struct {
 
 // writeSet computes (an over-approximation of) the heap classes a loop writes.
 func (e *Exec) writeSet(fr *frame, li *loopInfo) writeSet {
-	ws := writeSet{classes: map[string]bool{}}
+	ws := writeSet{classes: map[string]bool{}, locals: map[*ssa.Alloc]bool{}}
 	for b := range li.body {
 		for _, in := range b.Instrs {
 			e.instrWrites(in, &ws)
@@ -465,11 +507,20 @@ func (e *Exec) writeSet(fr *frame, li *loopInfo) writeSet {
 func (e *Exec) instrWrites(in ssa.Instruction, ws *writeSet) {
 	switch x := in.(type) {
 	case *ssa.Store:
+		if root := localRoot(x.Addr); root != nil {
+			ws.locals[root] = true
+			return
+		}
 		e.addrClasses(x.Addr, ws)
 	case *ssa.MapUpdate:
 		mt := x.Map.Type().Underlying().(*types.Map)
 		ws.classes["M:"+typeKey(mt.Key())+":"+typeKey(mt.Elem())+"#"] = true
 	case *ssa.Alloc, *ssa.MakeMap, *ssa.MakeSlice, *ssa.MakeInterface:
+		if a, ok := in.(*ssa.Alloc); ok && !a.Heap {
+			if _, isArr := a.Type().(*types.Pointer).Elem().Underlying().(*types.Array); !isArr {
+				return
+			}
+		}
 		ws.alloc = true
 		if a, ok := in.(*ssa.Alloc); ok {
 			et := a.Type().(*types.Pointer).Elem()
@@ -548,6 +599,23 @@ func (e *Exec) addrClasses(a ssa.Value, ws *writeSet) {
 	}
 }
 
+// localRoot returns the non-escaping local an address is rooted at, if any.
+func localRoot(v ssa.Value) *ssa.Alloc {
+	for {
+		switch x := v.(type) {
+		case *ssa.FieldAddr:
+			v = x.X
+		case *ssa.Alloc:
+			if _, isArr := x.Type().(*types.Pointer).Elem().Underlying().(*types.Array); !isArr && !x.Heap {
+				return x
+			}
+			return nil
+		default:
+			return nil
+		}
+	}
+}
+
 // rootOf returns the heap-class prefix for nested FieldAddr chains.
 func (e *Exec) rootOf(v ssa.Value) (ssa.Value, string) {
 	if fa, ok := v.(*ssa.FieldAddr); ok {
@@ -564,7 +632,7 @@ func (e *Exec) rootOf(v ssa.Value) (ssa.Value, string) {
 
 // loopVars resolves the names usable in invariants of loop li.
 func (e *Exec) loopVars(fr *frame, li *loopInfo, st *State) map[string]SV {
-	vars := e.scopeVars(fr, st)
+	vars := e.scopeVars(fr, st, li)
 	for _, in := range li.header.Instrs {
 		phi, ok := in.(*ssa.Phi)
 		if !ok {
@@ -573,7 +641,7 @@ func (e *Exec) loopVars(fr *frame, li *loopInfo, st *State) map[string]SV {
 		if sv, ok := st.env[phi]; ok {
 			name := phi.Comment
 			if name == "rangeindex" {
-				name = "$ri"
+				name = "rangeIndex"
 			}
 			vars[name] = sv
 		}
@@ -588,19 +656,19 @@ func (e *Exec) loopVars(fr *frame, li *loopInfo, st *State) map[string]SV {
 }
 
 // scopeVars: parameters, free variables and debug-named locals bound on this path.
-func (e *Exec) scopeVars(fr *frame, st *State) map[string]SV {
+func (e *Exec) scopeVars(fr *frame, st *State, li *loopInfo) map[string]SV {
 	vars := map[string]SV{}
-	for name, v := range fr.names {
+	for name, refs := range fr.names {
+		v, ok := pickDebug(refs, st, li)
+		if !ok {
+			continue
+		}
 		if strings.HasPrefix(name, "&") {
 			if sv, ok := st.env[v]; ok {
 				if a := e.addrOf(st, sv, nil, "", nil); a != nil {
 					vars[name[1:]] = e.load(st, a)
 				}
 			}
-			continue
-		}
-		switch v.(type) {
-		case *ssa.Const, *ssa.Global, *ssa.Function:
 			continue
 		}
 		if sv, ok := st.env[v]; ok {
@@ -732,6 +800,14 @@ func (e *Exec) step(fr *frame, in ssa.Instruction, st *State) {
 	switch x := in.(type) {
 	case *ssa.Alloc:
 		et := x.Type().(*types.Pointer).Elem()
+		if _, isArr := et.Underlying().(*types.Array); !isArr && !x.Heap {
+			if st.locals == nil {
+				st.locals = map[*ssa.Alloc][]Term{}
+			}
+			st.locals[x] = zeroSV(et).L
+			st.env[x] = SV{T: x.Type(), Addr: &Addr{Kind: ALocal, Local: x, T: et}}
+			return
+		}
 		r := e.allocRef(st)
 		if at, ok := et.Underlying().(*types.Array); ok {
 			for _, l := range flatten(at.Elem()) {
@@ -769,7 +845,7 @@ func (e *Exec) step(fr *frame, in ssa.Instruction, st *State) {
 		switch t := x.X.Type().Underlying().(type) {
 		case *types.Slice:
 			e.safety(fr, st, "index:"+valName(x.X), And(Ge(idx, IntLit(0)), Lt(idx, base.L[2])), in)
-			st.env[x] = SV{T: x.Type(), Addr: &Addr{Kind: AElem, Class: typeKey(t.Elem()), Ref: base.L[0], Idx: Add(base.L[1], idx), T: t.Elem()}}
+			st.env[x] = SV{T: x.Type(), Addr: &Addr{Kind: AElem, Class: typeKey(t.Elem()), Ref: base.L[0], Idx: CellIdx(base.L[1], idx), T: t.Elem()}}
 		case *types.Pointer:
 			at := t.Elem().Underlying().(*types.Array)
 			e.safety(fr, st, "index:"+valName(x.X), And(Ge(idx, IntLit(0)), Lt(idx, IntLit(at.Len()))), in)
@@ -1071,6 +1147,12 @@ func (e *Exec) unop(fr *frame, x *ssa.UnOp, st *State) {
 		}
 		r := e.load(st, a)
 		r.T = x.Type()
+		if a.Kind != AGlobal && a.Kind != ALocal && !st.localRefs[a.Ref.S] {
+			st.impure = append(st.impure, "reads "+a.String())
+		}
+		if a.Kind == AGlobal && nonNilGlobals[a.Class] && len(r.L) == 1 {
+			st.pc = append(st.pc, Not(Eq(r.L[0], IntLit(0))))
+		}
 		e.wfAssume(st, r)
 		if e.hooks != nil {
 			e.hooks.OnLoad(e, st, a, &r, x)
